@@ -272,8 +272,13 @@ func decodePlaceholder(s string) int {
 		return 0
 	}
 
-	i, _ := strconv.Atoi(s[1:])
-	return i
+	// placeholder numbers are stored as int32; anything that doesn't fit is invalid.
+	i, err := strconv.ParseInt(s[1:], 10, 32)
+	if err != nil {
+		return 0
+	}
+
+	return int(i)
 }
 
 func (p *parser) parseFieldList() []string {
